@@ -5,13 +5,14 @@ import numpy as np
 
 from gym_gridverse.action import Action
 from gym_gridverse.envs import transition_functions as transition_fs
-from gym_gridverse.grid_object import Box, Color, Door, Exit, Floor, Key, NoneGridObject, Wall
+from gym_gridverse.grid_object import Box, Color, Door, Exit, Floor, Key, MovingObstacle, NoneGridObject, Telepod, Wall
 
 from .. import compose, dyndrive, dynmon, enc, gen, search, workloads
 from ..monitor import Patch, call_real, describe_exc, reach
 
 ID = 'C10'
 LEVEL = 'exploration'
+DEBUG_TOGGLE = True  # runner flips the library debug flag every 97 monitored executions
 TECHNIQUE = 'runtime monitoring: door/box reference model at the transition-function hook over the full status x colour x held x relative-pose x action product; offline temporal checker on key-door histories; exhaustive BFS of the real step function over 5x5 key-door layouts asserting the safety invariant on every reachable transition'
 LEVEL_TEXT = ('Every observed call of a transition function is checked cell by cell: a door may only change status under '
               'actuate_door + ACTUATE + facing, only towards OPEN, a LOCKED one iff a key of its colour is held; a box only '
@@ -30,7 +31,7 @@ ASSUMPTIONS = ['door/box reference semantics from the statement and the Door doc
 EXHAUSTIVE_NOTE = 'product status x colour x held x relative pose x action (3x3 grids); full reachable graph of key-door 5x5 layouts (one per door row)'
 REQUIRED = {'quick': {'fn.actuate_door': 3000, 'fn.actuate_box': 3000, 'product.cases': 2000, 'event.locked_opened': 20,
                       'event.locked_refused': 50, 'event.closed_opened': 50, 'event.box_opened': 50,
-                      'graph.transitions': 2000, 'history.steps': 500, 'flags.door': 3}}
+                      'graph.transitions': 2000, 'history.steps': 500, 'flags.door': 3, 'product.with_obstacles': 100}}
 ASPECTS = ('door', 'box', 'key')
 
 
@@ -63,6 +64,13 @@ def product(ctx):
                     continue
                 s = dyndrive.floor_state(h, w, ay, ax, heading, hk())
                 s.grid[sy, sx] = mk()
+                if idx % 3 == 0:
+                    # moving obstacles around the subject (and a telepod under the agent): the stochastic dynamics must not
+                    # touch doors or boxes either
+                    for (oy, ox) in ((sy - 1, sx), (sy + 1, sx), (sy, sx - 1), (sy, sx + 1)):
+                        if 0 <= oy < h and 0 <= ox < w and (oy, ox) != (ay, ax) and type(s.grid[oy, ox]) is Floor:
+                            s.grid[oy, ox] = MovingObstacle()
+                    ctx.hit('product.with_obstacles')
                 for action in Action:
                     ctx.hit('product.cases')
                     ctx.nontrivial(('prod', sn, hn, pn, action.name))
@@ -248,6 +256,8 @@ def histories(ctx, sink, seeds, steps):
 
 
 def run(ctx):
+    from .. import custom_objects
+    custom_objects.enable(cleats=True)  # user-defined object types join the generators' pool (flags, not types, must decide)
     sink = dynmon.Sink(ctx, ASPECTS)
     sink.on_call = count_events(ctx)
     ctx.extra['exhaustive'] = True
@@ -258,7 +268,7 @@ def run(ctx):
         product(ctx)
         for state, cat, rng in dyndrive.random_function_sweep(
                 ctx, 'C10sweep', ctx.pick(240, 4000),
-                types=[Floor, Wall, Door, Key, Box, Exit]):
+                types=[Floor, Wall, Door, Key, Box, Exit, MovingObstacle, Telepod, MovingObstacle]):
             pass
         ctx.sample('sweep_state', {'state': enc.render(state), 'category': cat})
         keydoor_graphs(ctx, sink)
@@ -266,6 +276,8 @@ def run(ctx):
 
 
 def replay(ctx, kind, payload):
+    from .. import custom_objects
+    custom_objects.enable(cleats=True)
     if kind == 'fn_case':
         dynmon.replay_call(ctx, payload, ASPECTS)
     elif kind == 'flags':
